@@ -87,10 +87,10 @@ pub fn nested_types(tier: Tier, v: &mut impl Visitor) {
     v.visit::<f64, HyperDual<Dual64, f64>>(Dims::NONE);
     v.visit::<f64, DualVec<Dual64, f64, Const<2>>>(Dims::n(2));
     v.visit::<f32, Dual<Dual32, f32>>(Dims::NONE);
+    v.visit::<f64, Dual3<Dual64, f64>>(Dims::NONE);
     if tier == Tier::Thorough {
         v.visit::<f64, Dual<Dual<Dual64, f64>, f64>>(Dims::NONE);
         v.visit::<f64, Dual2<Dual2_64, f64>>(Dims::NONE);
-        v.visit::<f64, Dual3<Dual64, f64>>(Dims::NONE);
         v.visit::<f64, Dual<Dual3_64, f64>>(Dims::NONE);
         v.visit::<f64, HyperHyperDual<Dual64, f64>>(Dims::NONE);
         v.visit::<f64, Dual<DualSVec64<2>, f64>>(Dims::n(2));
@@ -117,10 +117,17 @@ pub fn copy64_types(tier: Tier, v: &mut impl VisitorCopy) {
     v.visit::<DualSVec64<2>>(Dims::n(2));
     v.visit::<Dual2SVec64<2>>(Dims::n(2));
     v.visit::<HyperDualSVec64<2, 2>>(Dims::mn(2, 2));
+    v.visit::<Dual2<Dual2_64, f64>>(Dims::NONE);
     if tier == Tier::Thorough {
-        v.visit::<Dual2<Dual2_64, f64>>(Dims::NONE);
         v.visit::<Dual<Dual3_64, f64>>(Dims::NONE);
         v.visit::<Dual3<Dual64, f64>>(Dims::NONE);
         v.visit::<Dual<Dual64, f64>>(Dims::NONE);
     }
+}
+
+/// fourth-order nestings (used by the checks of functions with small-argument series)
+pub fn fourth_order_types(v: &mut impl Visitor) {
+    v.visit::<f64, Dual2<Dual2_64, f64>>(Dims::NONE);
+    v.visit::<f64, Dual3<Dual64, f64>>(Dims::NONE);
+    v.visit::<f64, Dual<Dual3_64, f64>>(Dims::NONE);
 }
